@@ -130,6 +130,78 @@ impl<R: Read> Iterator for ChunkedChars<R> {
     }
 }
 
+/// Wrapper around [`BufferedInput`] that makes scanning terminate at the end of input.
+///
+/// `BufferedInput` pads every read past the end of its iterator with `'\0'`, forever. The
+/// scanner's default `fetch_while_is_yaml_non_space` (used for directive names and parameters)
+/// does not treat `'\0'` as a terminator, so a directive on an unterminated last line
+/// (`%`, `%YAML`, `a: 1\n%b`, ...) would spin forever, appending NULs to a growing string.
+/// `StrInput` does not have this problem because its buffer is finite. Everything else is
+/// delegated unchanged.
+pub struct EofSafeInput<T: Iterator<Item = char>>(pub BufferedInput<T>);
+
+impl<T: Iterator<Item = char>> saphyr_parser::Input for EofSafeInput<T> {
+    #[inline]
+    fn lookahead(&mut self, count: usize) {
+        self.0.lookahead(count)
+    }
+    #[inline]
+    fn buflen(&self) -> usize {
+        self.0.buflen()
+    }
+    #[inline]
+    fn bufmaxlen(&self) -> usize {
+        self.0.bufmaxlen()
+    }
+    #[inline]
+    fn raw_read_ch(&mut self) -> char {
+        self.0.raw_read_ch()
+    }
+    #[inline]
+    fn raw_read_non_breakz_ch(&mut self) -> Option<char> {
+        self.0.raw_read_non_breakz_ch()
+    }
+    #[inline]
+    fn skip(&mut self) {
+        self.0.skip()
+    }
+    #[inline]
+    fn skip_n(&mut self, count: usize) {
+        self.0.skip_n(count)
+    }
+    #[inline]
+    fn peek(&self) -> char {
+        self.0.peek()
+    }
+    #[inline]
+    fn peek_nth(&self, n: usize) -> char {
+        self.0.peek_nth(n)
+    }
+
+    fn fetch_while_is_yaml_non_space(&mut self, out: &mut String) -> usize {
+        let mut n = 0;
+        loop {
+            let c = self.look_ch();
+            // '\0' is what the buffer yields once the input has ended: stop there.
+            // Otherwise the same set as the parser's `is_yaml_non_space`.
+            if matches!(c, '\0' | ' ' | '\t' | '\n' | '\r' | '\u{FEFF}') {
+                break;
+            }
+            n += c.len_utf8();
+            out.push(c);
+            self.skip();
+        }
+        n
+    }
+}
+
+impl<T: Iterator<Item = char>> saphyr_parser::BorrowedInput<'static> for EofSafeInput<T> {
+    #[inline]
+    fn slice_borrowed(&self, _start: usize, _end: usize) -> Option<&'static str> {
+        None
+    }
+}
+
 /// Creates buffered input and returns both input and reference to the variable
 /// holding the possible error. We cannot otherwise later reach our ChunkedChars.
 pub fn buffered_input_from_reader_with_limit<'a, R: Read + 'a>(
